@@ -55,6 +55,7 @@ type item struct {
 	stored  []byte // bytes handed to Put (zstd frame for the compressed item)
 	hdr     []byte // canonical encoding of the payload-less object
 	payload []byte
+	tag     string // extra structural class of this item for fingerprints (threshold sweep)
 }
 
 var (
@@ -263,9 +264,10 @@ type sys struct {
 	cfg     config
 	ops     []op
 	dir     string
-	items   []*item // the universe (sweep cases bring their own)
-	present []bool  // reference map (content is fixed per address)
-	extra   string  // extra structural class appended to fingerprints (boundary sweep)
+	items   []*item         // the universe (sweep cases bring their own)
+	present []bool          // reference map (content is fixed per address)
+	extra   string          // extra structural class appended to fingerprints (boundary sweep)
+	opts    []fstree.Option // instance options of every FSTree opened on this directory (operation-specific ones win)
 	pending [2]string
 }
 
@@ -287,7 +289,8 @@ func newSys(cfg config, ops []op) *sys {
 }
 
 func (s *sys) open(opts ...fstree.Option) *fstree.FSTree {
-	t := fstree.New(append([]fstree.Option{fstree.WithPath(s.dir), fstree.WithDepth(s.cfg.depth), fstree.WithNoSync(true)}, opts...)...)
+	base := append([]fstree.Option{fstree.WithPath(s.dir), fstree.WithDepth(s.cfg.depth), fstree.WithNoSync(true)}, s.opts...)
+	t := fstree.New(append(base, opts...)...)
 	if err := t.Open(false); err != nil {
 		run.Fatal("open: %v", err)
 	}
@@ -544,7 +547,13 @@ func (s *sys) Check() (string, string) {
 	if s.pending[0] != "" {
 		return s.pending[0], s.pending[1]
 	}
-	t := s.open()
+	// the reading instance is configured with the universe's combined threshold (and a size limit of 4x):
+	// PutBatch ignores both, so combined files legally hold members above them
+	t := s.open(fstree.WithCombinedSizeThreshold(threshold), fstree.WithCombinedSizeLimit(4*threshold))
+	if len(s.opts) > 0 {
+		t.Close()
+		t = s.open()
+	}
 	defer t.Close()
 	fp, what := "", ""
 	bad := func(api, rule string, k int, detail string) {
@@ -590,7 +599,7 @@ func (s *sys) Check() (string, string) {
 					fpShape += ",followed-by-members"
 				}
 			}
-			fp = fmt.Sprintf("%s:%s:%s%s", api, rule, fpShape, s.extra)
+			fp = fmt.Sprintf("%s:%s:%s%s%s", api, rule, fpShape, it.tag, s.extra)
 			what = fmt.Sprintf("[%s] address %s (%d bytes, %s) %s: %s; stored set %v", s.cfg, s.items[k].name, len(s.items[k].content), sh, api, detail, s.names())
 		}
 	}
@@ -759,6 +768,7 @@ type replay struct {
 	Ops   []string   `json:"ops,omitempty"`
 	Sweep *sweepCase `json:"sweep,omitempty"`
 	Size  *sizeCase  `json:"size,omitempty"`
+	Batch *batchCase `json:"batch,omitempty"`
 }
 
 func configs(thorough bool) []struct {
@@ -829,6 +839,14 @@ func main() {
 	if r.Replay != "" {
 		var rp replay
 		r.LoadReplay(&rp)
+		if rp.Batch != nil {
+			fp, what := runBatchCase(*rp.Batch)
+			os.RemoveAll(base)
+			if fp != "" {
+				r.Violation(fp, what, rp)
+			}
+			r.Finish()
+		}
 		if rp.Size != nil {
 			fp, what, _ := runSizeCase(*rp.Size)
 			os.RemoveAll(base)
@@ -875,6 +893,7 @@ func main() {
 	var rows []row
 	sweepPart(r.Quick())
 	sizeSweepPart(r.Quick())
+	batchSweepPart(r.Quick())
 	for _, cd := range configs(r.Thorough()) {
 		cfg := mk(cd.c)
 		cfg.MaxDepth = cd.depth
@@ -907,7 +926,7 @@ func main() {
 	}())
 	r.Set("combined_threshold", threshold)
 	r.Exhaustive(exhaustive)
-	r.Rule("per configuration (tree depth x writer) BFS over operation sequences up to the listed depth with state dedup; operations: Put as plain file, Put into a single-member combined file, two concurrent Puts sharing a combined file, PutBatch of every ordered selection of 1..3 addresses (member order forced), Delete; after every transition the full read battery runs on all addresses. State = reference map + canonical directory listing (paths, content hashes, hard-link groups). distinct_nontrivial = distinct states reached plus boundary-sweep cases. Boundary sweep (enumerated, not BFS): combined files of 2-3 members (PutBatch, forced order) whose leading member sizes are swept so that the next member prefix starts at every file offset in [E-80, E+2] for every buffer end E of the member-prefix scan (E = B and 2B with B = NonPayloadFieldsBufferLength, after a prefix straddling the first buffer end, after a seek over a member longer than the buffer), member lengths with non-zero low bytes, caller buffers poisoned; the same read battery on every member; the same prefix alignments (0..38 prefix bytes inside the read window, plus margins; thorough: the whole [E-80, E+2] window, also around 2B) with a swept member that is itself streamed (B+321 bytes; 2B+411 bytes) in last and middle position, after a straddling prefix (19 / 37 bytes buffered) and after a seek. Header-buffer size sweep: objects of every plain size in [B-44, B+20] / [B-20, B+20] (quick; thorough +-64, also around 2B) with incompressible, compressible and mixed payloads, stored raw and zstd-compressed (so that plain size and stored size independently fall below, at and above B; mixed payloads put the stored size of a >2B object around B), each as single file, first member and last member of a combined file; the same read battery on each")
+	r.Rule("per configuration (tree depth x writer) BFS over operation sequences up to the listed depth with state dedup; operations: Put as plain file, Put into a single-member combined file, two concurrent Puts sharing a combined file, PutBatch of every ordered selection of 1..3 addresses (member order forced), Delete; after every transition the full read battery runs on all addresses. State = reference map + canonical directory listing (paths, content hashes, hard-link groups). distinct_nontrivial = distinct states reached plus boundary-sweep cases. Boundary sweep (enumerated, not BFS): combined files of 2-3 members (PutBatch, forced order) whose leading member sizes are swept so that the next member prefix starts at every file offset in [E-80, E+2] for every buffer end E of the member-prefix scan (E = B and 2B with B = NonPayloadFieldsBufferLength, after a prefix straddling the first buffer end, after a seek over a member longer than the buffer), member lengths with non-zero low bytes, caller buffers poisoned; the same read battery on every member; the same prefix alignments (0..38 prefix bytes inside the read window, plus margins; thorough: the whole [E-80, E+2] window, also around 2B) with a swept member that is itself streamed (B+321 bytes; 2B+411 bytes) in last and middle position, after a straddling prefix (19 / 37 bytes buffered) and after a seek. Header-buffer size sweep: objects of every plain size in [B-44, B+20] / [B-20, B+20] (quick; thorough +-64, also around 2B) with incompressible, compressible and mixed payloads, stored raw and zstd-compressed (so that plain size and stored size independently fall below, at and above B; mixed payloads put the stored size of a >2B object around B), each as single file, first member and last member of a combined file; the same read battery on each. PutBatch member-size sweep: every ordered batch of 2-3 members over the size classes {small, T-1, T, T+1, S+1} (T = configured combined size threshold, S = combined size limit; PutBatch ignores both) written and read through that configuration, plus the default configuration with a member of 128 KiB-1 / 128 KiB / 128 KiB+1 in first, middle and last position; full battery on all members. The reading instance of every state check is configured with the universe threshold, so BFS and sweep states hold members above the threshold of the reader too")
 	r.Assume("content per address is fixed (content-addressed storage; the linux writer treats EEXIST as success by design)",
 		"directories left empty by Delete are not part of the state key: no API can observe them",
 		"histories are sequential except for the two-concurrent-Puts operation, whose outcome is made deterministic by a count limit of 2 and a batch timer that never fires; other interleavings belong to C13",
